@@ -28,10 +28,10 @@ Theorem compile_rows_first_match : forall E fuel rows s k s' Gam rho,
   WF E Gam rows s rho -> outcome_equiv (eval_core k rho) (first_match_rows rows rho).
 Proof. exact P15.compile_rows_correct. Qed.
 
-(** an integer or string match without a catch-all arm is rejected at compile time *)
-Theorem literal_match_without_default_rejected : forall E fuel scrut l1 l2 w g0,
-  diag (snd (compile_match E (S (S fuel)) scrut [PLit (LInt l1) (TyInt w); PLit (LInt l2) (TyInt w)] g0)) = true.
-Proof. intros. cbn. destruct (Z.eqb l1 l2); reflexivity. Qed.
+(** an integer match without a catch-all arm is rejected at compile time (instance) *)
+Theorem literal_match_without_default_rejected : forall E n w g0,
+  diag (snd (compile_match E (S (S n)) (U 0) [PLit (LInt 0) (TyInt w); PLit (LInt 1) (TyInt w)] g0)) = true.
+Proof. intros. reflexivity. Qed.
 
 (** non-vacuity: a concrete three-arm match on (E, int) satisfies every hypothesis *)
 Definition ex_env : tenv := {| enums := [[[]; [TyInt 2; TyBool]]]; structs := [] |}.
@@ -46,12 +46,7 @@ Example first_match_nonvacuous :
   val_ok ex_env (VTuple [VEnum 0 1 [VLit (LInt 9); VLit (LBool true)]; VLit (LInt 3)]) ex_ty /\
   eval_core k [(U 0, VTuple [VEnum 0 1 [VLit (LInt 9); VLit (LBool true)]; VLit (LInt 3)])] = Hit 0 [(5, VLit (LInt 9))].
 Proof.
-  vm_compute. repeat split; try exact I.
-  - repeat constructor.
-    + eapply ok_enum; [reflexivity|reflexivity|]. repeat constructor.
-    + exact I.
-    + exact I.
-  - repeat constructor.
-    + eapply vok_enum; [reflexivity|reflexivity|]. repeat constructor; exact I.
-    + exact I.
+  vm_compute. split; [reflexivity|]. split; [repeat split|]. split; [|split; [|reflexivity]].
+  - repeat constructor; try exact I. eapply ok_enum; [reflexivity|reflexivity|]. repeat constructor; exact I.
+  - repeat constructor; try exact I. eapply vok_enum; [reflexivity|reflexivity|]. repeat constructor; exact I.
 Qed.
